@@ -71,7 +71,7 @@ def inputs(which: str):
     return _INPUTS[which]
 
 
-def check_one(ctx, cfg: dict, which: str, enumerated: bool, memo: dict | None):
+def check_one(ctx, cfg: dict, which: str, enumerated: bool, memo: dict | None, reload: bool = True):
     case = {'cfg': cfg, 'traj': which}
     ctx.case(case)
     inp = inputs(which)
@@ -79,7 +79,9 @@ def check_one(ctx, cfg: dict, which: str, enumerated: bool, memo: dict | None):
         raise core.HarnessError(
             'the simulated trajectory of the C11 domain is not available (legacy builder failed on sample mission 0 '
             'or produced an increasing fuel mass); see C02')
-    out = ec.evaluate(inp, cfg, check_off=True)
+    out = ec.evaluate(inp, cfg, check_off=True, reload=reload)
+    if not reload:
+        ctx.label('config.shared_with_previous_flight')
     ctx.label(f'traj.{which}')
     nd = ec.n_nondefault(cfg)
     if out.kind == 'refused':
@@ -129,15 +131,16 @@ def run(ctx: core.Ctx):
             elif k.endswith('_method'):
                 off[k] = 'none'
         for cfg in (off, dict(ec.DEFAULTS())):
-            for which in TRAJS:
-                check_one(ctx, cfg, which, enumerated=True, memo=memo)
+            for j, which in enumerate(TRAJS):
+                # one loaded configuration serves several flights (as in a real inventory run)
+                check_one(ctx, cfg, which, enumerated=True, memo=memo, reload=(j == 0))
         ctx.label('history.all_off_first')
         if ctx.quick:
             rows = ec.pairwise_array(ctx.seed)
             ctx.extra['pairwise_rows'] = len(rows)
             for cfg in [dict(ec.DEFAULTS())] + rows:
-                for which in TRAJS:
-                    check_one(ctx, cfg, which, enumerated=True, memo=memo)
+                for j, which in enumerate(TRAJS):
+                    check_one(ctx, cfg, which, enumerated=True, memo=memo, reload=(j == 0))
             from hypothesis import strategies as st
 
             strat = st.tuples(ec.st_config(), st.sampled_from(TRAJS))
@@ -151,8 +154,8 @@ def run(ctx: core.Ctx):
                 if i % ctx.nshards != ctx.shard:
                     continue
                 cfg = ec.config_from_index(i)
-                for which in TRAJS:
-                    check_one(ctx, cfg, which, enumerated=True, memo=memo)
+                for j, which in enumerate(TRAJS):
+                    check_one(ctx, cfg, which, enumerated=True, memo=memo, reload=(j == 0))
             ctx.exhaustive = True
     finally:
         core.reset_config()
